@@ -147,20 +147,123 @@ def run_case(case):
                     add('interleaved:result-differs-from-alone:whfast512:process-global-constants' if ma != mb else 'interleaved:result-differs-from-alone:whfast512:equal-systems',
                         'two WHFast512 simulations (stellar masses %r and %r, gr_potential=%d) stepped alternately in one thread: the %s one ends %.3e away from where it ends when run alone' % (ma, mb, gr, nm, dd))
             cells.add(json.dumps(['whfast512', ma != mb, gr]))
+    elif kind == 'bystander':
+        # ---------------------------------------------------------------- a served simulation next to an unrelated one
+        # Simulation A runs its built-in server and is polled by clients.  In other threads of the same process (i) simulation B
+        # appends snapshots to its own archive and (ii) a probe opens / writes / closes its own scratch file in a tight loop.
+        # File descriptors are process-wide: if A's server ever closes a descriptor it does not own (e.g. closes a client
+        # connection twice), it closes B's archive or the probe's file under their feet.  Oracle: every operation of B and of the
+        # probe succeeds, B's archive holds exactly the snapshots B took, each equal to B's live state at that moment.
+        import rebound, urllib.request, tempfile
+        from vf import rt
+        rr = random.Random(r.getrandbits(40))
+        a = gen.build_sim(gen.random_spec(rr, integ='whfast', allow_var=False, nmax=2))
+        s_ = socket.socket()
+        s_.bind(('127.0.0.1', 0))
+        port = s_.getsockname()[1]
+        s_.close()
+        try:
+            a.start_server(port=port)
+        except Exception as e:
+            add('server:could-not-start', repr(e)[:200])
+            a = None
+        if a is not None:
+            stop = [False]
+            nreq = [0]
+
+            def client():
+                while not stop[0]:
+                    try:
+                        with urllib.request.urlopen('http://127.0.0.1:%d/simulation' % port, timeout=5) as resp:
+                            resp.read()
+                            nreq[0] += 1
+                    except Exception:
+                        pass
+            probe = dict(n=0, bad=0, first=None)
+            tmpd = tempfile.mkdtemp(prefix='c19by-')
+
+            def fdprobe():
+                fn_ = os.path.join(tmpd, 'probe.bin')
+                while not stop[0]:
+                    try:
+                        fd = os.open(fn_, os.O_WRONLY | os.O_CREAT)
+                        os.write(fd, b'x')
+                        os.close(fd)
+                    except OSError as e:
+                        probe['bad'] += 1
+                        if probe['first'] is None:
+                            probe['first'] = 'cycle %d: %s' % (probe['n'], e)
+                    probe['n'] += 1
+            ths = [threading.Thread(target=client) for _ in range(2)] + [threading.Thread(target=fdprobe)]
+            for t_ in ths:
+                t_.start()
+            b = gen.build_sim(gen.random_spec(rr, integ=r.choice(['whfast', 'ias15', 'leapfrog']), allow_var=False, nmax=3))
+            fnb = os.path.join(tmpd, 'b.sa')
+            expected = []
+            t_end = time.time() + case.get('secs', 2.0)
+            err = None
+            while time.time() < t_end and len(expected) < 400:
+                try:
+                    b.steps(2)
+                    expected.append(rt.digest(rt.sabin(rt.save_bytes(b))))
+                    b.save_to_file(fnb)
+                except Exception as e:
+                    err = '%s: %s' % (type(e).__name__, e)
+                    break
+            stop[0] = True
+            for t_ in ths:
+                t_.join()
+            try:
+                a.stop_server()
+            except Exception:
+                pass
+            counters['bystander_runs'] = 1
+            counters['bystander_requests_served'] = nreq[0]
+            counters['bystander_snapshots'] = len(expected)
+            counters['bystander_fd_cycles'] = probe['n']
+            if probe['bad']:
+                add('server:closes-descriptor-it-does-not-own', '%d of %d open/write/close cycles of an unrelated thread failed while %d requests were served (first: %s)' % (probe['bad'], probe['n'], nreq[0], probe['first']))
+            if err:
+                add('server:bystander-archive-operation-failed', 'simulation B (no server) failed while A served %d requests: %s' % (nreq[0], err))
+            else:
+                try:
+                    sa = rebound.Simulationarchive(fnb)
+                    got = [rt.digest(rt.sabin(rt.save_bytes(sa[i]))) for i in range(len(sa))]
+                    if len(got) != len(expected):
+                        add('server:bystander-archive-lost-snapshots', 'B appended %d snapshots, its archive holds %d (A served %d requests meanwhile)' % (len(expected), len(got), nreq[0]))
+                    else:
+                        nd = sum(1 for x_, y_ in zip(got, expected) if x_ != y_)
+                        if nd:
+                            add('server:bystander-archive-snapshots-differ', '%d of %d snapshots of B differ from its live state' % (nd, len(got)))
+                except Exception as e:
+                    add('server:bystander-archive-unreadable', 'B appended %d snapshots; opening its archive: %s: %s' % (len(expected), type(e).__name__, e))
+            import shutil
+            shutil.rmtree(tmpd, ignore_errors=True)
+            cells.add(json.dumps(['bystander', b.integrator]))
     else:
         # ---------------------------------------------------------------- server
         import rebound, urllib.request
         from vf import rt
-        integ = r.choice(['whfast', 'leapfrog', 'ias15', 'mercurius', 'saba'])
+        integ = r.choice(['whfast', 'mercurius', 'saba'] if case.get('unsafe') else ['whfast', 'leapfrog', 'ias15', 'mercurius', 'saba'])
         rr = random.Random(r.getrandbits(40))
         spec = gen.random_spec(rr, integ=integ, allow_var=False, nmax=3)
         for k in list(spec['opts']):
             if k.endswith('safe_mode') or k.endswith('keep_unsynchronized') or 'min_dt' in k:
                 del spec['opts'][k]
+        # half of the deferred-synchronisation integrators run with safe_mode=0: the live simulation is then unsynchronised at
+        # every step boundary, and a handler that synchronises it (instead of a copy) silently changes the trajectory
+        unsafe = bool(case.get('unsafe'))
+        if unsafe:
+            spec['opts']['ri_%s.safe_mode' % integ] = 0
+            counters['server_runs_unsynchronised'] = 1
         if integ == 'ias15':
             spec['opts']['ri_ias15.adaptive_mode'] = 2      # mode 0 is documented to stall when an acceleration component passes through zero
         nsteps = r.choice([150, 400])
         damp = 1.0 - 1e-6      # any change of state will do; a strong drag makes the planets spiral into the star
+
+        def skey(s_):
+            # unsafe mode: the state is the internal coordinates + flags, i.e. the whole persisted content
+            return rt.digest(rt.sabin_sim(s_)) if unsafe else rt.state_hash(s_)
 
         def attach(sim, boundary_log, skip_first=False):
             first = [skip_first]
@@ -176,23 +279,25 @@ def run_case(case):
                     s._status = 5          # an adaptive scheme taking 30x the planned steps: stop (the run is then not evaluated)
                     return
                 # a heartbeat that changes the state: every snapshot taken while it runs would be torn
-                for p in s.particles:
-                    p.vx *= damp
-                    time.sleep(0)
-                    p.vy *= damp
-                    p.vz *= damp
+                # (not in unsafe mode, where the particle array is not the state between steps and must not be edited)
+                if not unsafe:
+                    for p in s.particles:
+                        p.vx *= damp
+                        time.sleep(0)
+                        p.vy *= damp
+                        p.vz *= damp
                 time.sleep(0.0005)
                 if boundary_log is not None:
-                    boundary_log.append((s.t, rt.state_hash(s)))     # the state the loop leaves behind when it releases the server's mutex
+                    boundary_log.append((s.t, skey(s)))     # the state the loop leaves behind when it releases the server's mutex
             sim.heartbeat = hb
             return hb
         # reference: no server
         ref = gen.build_sim(spec)
-        blog = [(ref.t, rt.state_hash(ref))]
+        blog = [(ref.t, skey(ref))]
         keep1 = attach(ref, blog)
         T = ref.t + nsteps * ref.dt
         ref.integrate(T, exact_finish_time=0)
-        blog.append((ref.t, rt.state_hash(ref)))
+        blog.append((ref.t, skey(ref)))
         final_ref = rt.digest(rt.sabin_sim(ref))
         boundary = set(blog)
         # served run
@@ -233,7 +338,7 @@ def run_case(case):
             except Exception:
                 pass
             if final_served != final_ref:
-                add('server:serving-changed-the-trajectory:%s' % integ, '%s: final state with %d served requests differs from the run without a server' % (integ, len(bodies)))
+                add('server:serving-changed-the-trajectory:%s%s' % (integ, ':unsynchronised' if unsafe else ''), '%s: final state with %d served requests differs from the run without a server' % (integ, len(bodies)))
             nbad = 0
             cont_budget = 6
             for b in bodies:
@@ -246,7 +351,7 @@ def run_case(case):
                 except Exception as e:
                     add('server:response-is-not-a-snapshot:%s' % integ, 'response of %d bytes does not load: %r' % (len(b), e))
                     continue
-                key = (snap.t, rt.state_hash(snap))
+                key = (snap.t, rt.digest(rt.sabin(b)) if unsafe else rt.state_hash(snap))      # unsafe: the served bytes themselves (a re-save of the loaded copy would drop the function-pointer flag)
                 if 0 < len([1 for q in blog if q[0] == snap.t]) and snap.t not in (blog[0][0], blog[-1][0]):
                     counters['server_snapshots_mid_run'] += 1
                 if key not in boundary:
@@ -261,7 +366,7 @@ def run_case(case):
                     snap.integrate(T, exact_finish_time=0)
                     if rt.digest(rt.sabin_sim(snap)) != final_ref:
                         add('server:continued-snapshot-diverges:%s' % integ, '%s: snapshot served at t=%r continued to the end does not reproduce the final state' % (integ, key[0]))
-            cells.add(json.dumps(['server', integ, nsteps]))
+            cells.add(json.dumps(['server', integ, nsteps, int(unsafe)]))
     for v in viol:
         v['case_seed'] = case['seed']
     return dict(violations=viol, cells=[json.loads(c) for c in cells], counters=counters, sample=dict(seed=case['seed'], kind=kind))
@@ -280,8 +385,10 @@ def main(tier, seed):
             cases['rel'].append(dict(kind='cdriver', variant=v, bin=bins[v], seed=r.getrandbits(40), reps=2 if q else 4))
     for i in range(6 if q else 60):
         cases['rel'].append(dict(kind='pythreads', seed=r.getrandbits(40), nsims=16, rounds=3 if q else 6))
-    for i in range(8 if q else 80):
-        cases['rel'].append(dict(kind='server', seed=r.getrandbits(40)))
+    for i in range(12 if q else 80):
+        cases['rel'].append(dict(kind='server', seed=r.getrandbits(40), unsafe=i % 2))
+    for i in range(3 if q else 24):
+        cases['rel'].append(dict(kind='bystander', seed=r.getrandbits(40), secs=2.0 if q else 4.0))
     if have512:
         cases['avx512'].append(dict(kind='whfast512', seed=r.getrandbits(40)))
         for i in range(2 if q else 12):
@@ -294,7 +401,7 @@ def main(tier, seed):
         for c, rr in zip(cs, res):
             V.absorb(c, rr, crash_mech=crash_mech)
     inc = []
-    for k in ('cdriver_runs', 'cdriver_jobs_compared', 'tsan_runs', 'pythread_rounds', 'pythread_sims_compared', 'server_runs', 'server_snapshots', 'server_snapshots_mid_run'):
+    for k in ('cdriver_runs', 'cdriver_jobs_compared', 'tsan_runs', 'pythread_rounds', 'pythread_sims_compared', 'server_runs', 'server_runs_unsynchronised', 'server_snapshots', 'server_snapshots_mid_run', 'bystander_requests_served', 'bystander_snapshots', 'bystander_fd_cycles'):
         if V.counters.get(k, 0) == 0:
             inc.append('monitor counter %s is zero' % k)
     return V.finish(
